@@ -766,6 +766,9 @@ class Machine:
             lo, hi = INT_RANGE.get(tys, (-INF, INF))
             return self.ienv.new_sym("f2i", lo, hi)
         if kind == "FloatToFloat":
+            if tys == "f32" and is_float(v) and not F.is_lit(v):
+                # narrowing loses precision: keep it visible in the residual
+                return F.fn("lossy_f32", v)
             return v
         if kind.startswith("PointerCoercion:Unsize"):
             if isinstance(v, VRef):
